@@ -43,6 +43,8 @@ pub struct Case {
     pub kind: String,
     pub ety: String,
     pub mode: String, // "E" = parse, "C" = check
+    /// C13: further inputs parsed afterwards through the same parser value
+    pub more: Vec<Vec<char>>,
 }
 
 impl Case {
@@ -54,11 +56,16 @@ impl Case {
             kind: j["kind"].as_str().unwrap_or("str").to_string(),
             ety: j["ety"].as_str().unwrap_or("rich").to_string(),
             mode: j["mode"].as_str().unwrap_or("E").to_string(),
+            more: j["more"]
+                .as_array()
+                .map(|a| a.iter().map(|x| x.as_array().map(|t| t.iter().map(|t| tok_to_char(t.as_str().unwrap_or(""))).collect()).unwrap_or_default()).collect())
+                .unwrap_or_default(),
         })
     }
     pub fn to_json(&self) -> J {
         json!({"g": self.gj, "inp": self.inp.iter().map(|c| char_to_tok(*c)).collect::<Vec<_>>(),
-               "kind": self.kind, "ety": self.ety, "mode": self.mode})
+               "kind": self.kind, "ety": self.ety, "mode": self.mode,
+               "more": self.more.iter().map(|x| x.iter().map(|c| char_to_tok(*c)).collect::<Vec<_>>()).collect::<Vec<_>>()})
     }
 }
 
@@ -82,6 +89,8 @@ pub struct Obs {
     pub double_drops: u64,
     pub created: u64,
     pub pulls: Vec<usize>,
+    /// C13: the observations of the earlier parses of a history (self is the last one)
+    pub past: Vec<Obs>,
 }
 
 impl Obs {
@@ -93,6 +102,7 @@ impl Obs {
             "panic": self.panic.is_some(), "insp": self.insp,
             "leaked": self.live_with_result - self.tracks_in_output,
             "obs": self.events.iter().map(|e| json!([e.id, e.cur, e.insp, e.ctx.to_json()])).collect::<Vec<_>>(),
+            "past": self.past.iter().map(|o| o.to_json()).collect::<Vec<_>>(),
         })
     }
 }
@@ -132,7 +142,43 @@ pub fn run_kind<'a, I: Kind<'a>, E: ErrTy<'a, I>>(g: &G, input: I, toks: &[char]
             return Ok(o);
         }
     };
+    Ok(parse_one::<I, E, _>(&p, input, toks, mode))
+}
+
+/// C13: one parser value, several parses, each through a different handle on it (the original, a clone, a
+/// reference, Box, Rc, Arc, a second boxed(), Either); `sched` rotates which handle serves which parse
+pub fn run_kind_hist<'a, I: Kind<'a>, E: ErrTy<'a, I>>(g: &G, inputs: Vec<(I, Vec<char>)>, mode: &str, sched: usize) -> Result<Obs, String> {
+    use chumsky::Parser as _;
+    let p = build::<I, E>(g, &vec![])?;
+    let boxed = Box::new(p.clone());
+    let rc = std::rc::Rc::new(p.clone());
+    let arc = std::sync::Arc::new(p.clone());
+    let reboxed = p.clone().boxed();
+    let left: either::Either<crate::build::P<'a, I, E>, crate::build::P<'a, I, E>> = either::Either::Left(p.clone());
+    let right: either::Either<crate::build::P<'a, I, E>, crate::build::P<'a, I, E>> = either::Either::Right(p.clone());
+    let mut all = vec![];
+    for (i, (input, toks)) in inputs.into_iter().enumerate() {
+        let o = match (i + sched) % 9 {
+            0 => parse_one::<I, E, _>(&p, input, &toks, mode),
+            1 => parse_one::<I, E, _>(&p.clone(), input, &toks, mode),
+            2 => parse_one::<I, E, _>(&&p, input, &toks, mode),
+            3 => parse_one::<I, E, _>(&boxed, input, &toks, mode),
+            4 => parse_one::<I, E, _>(&rc, input, &toks, mode),
+            5 => parse_one::<I, E, _>(&arc, input, &toks, mode),
+            6 => parse_one::<I, E, _>(&reboxed, input, &toks, mode),
+            7 => parse_one::<I, E, _>(&left, input, &toks, mode),
+            _ => parse_one::<I, E, _>(&right, input, &toks, mode),
+        };
+        all.push(o);
+    }
+    let mut last = all.pop().ok_or("empty history")?;
+    last.past = all;
+    Ok(last)
+}
+
+pub fn parse_one<'a, I: Kind<'a>, E: ErrTy<'a, I>, Pz: Parser<'a, I, Val, crate::build::X<E>>>(p: &Pz, input: I, toks: &[char], mode: &str) -> Obs {
     let _ = take_log();
+    BASE.with(|b| *b.borrow_mut() = input.base());
     let live0 = val::live_count() as i64;
     let dd0 = val::double_drops();
     let cr0 = val::created();
@@ -186,7 +232,7 @@ pub fn run_kind<'a, I: Kind<'a>, E: ErrTy<'a, I>>(g: &G, input: I, toks: &[char]
     o.live_after = val::live_count() as i64 - live0;
     o.double_drops = val::double_drops() - dd0;
     o.created = val::created() - cr0;
-    Ok(o)
+    o
 }
 
 macro_rules! by_ety {
@@ -214,6 +260,9 @@ pub fn str_offsets(toks: &[char]) -> Vec<usize> {
 /// Run a case with an explicit kind / error type / mode (overriding the case's own when given).
 pub fn run_case_as(c: &Case, kind: &str, ety: &str, mode: &str) -> Result<Obs, String> {
     val::reset_tracking();
+    if !c.more.is_empty() {
+        return run_hist_as(c, kind, ety, mode, 0);
+    }
     match kind {
         "str" => {
             let s: String = c.inp.iter().collect();
@@ -313,4 +362,50 @@ pub fn run_case_as(c: &Case, kind: &str, ety: &str, mode: &str) -> Result<Obs, S
 
 pub fn run_case(c: &Case) -> Result<Obs, String> {
     run_case_as(c, &c.kind, &c.ety, &c.mode)
+}
+
+/// C13: the whole history of a case (its input, then `more`) through one parser value
+pub fn run_hist_as(c: &Case, kind: &str, ety: &str, mode: &str, sched: usize) -> Result<Obs, String> {
+    val::reset_tracking();
+    let mut all: Vec<Vec<char>> = vec![c.inp.clone()];
+    all.extend(c.more.iter().cloned());
+    LOCS.with(|l| l.borrow_mut().clear());
+    BASE.with(|b| *b.borrow_mut() = (0, 1));
+    match kind {
+        "slice" => {
+            if ety != "rich" {
+                return Err(format!("error type {ety} not instantiated for kind slice"));
+            }
+            let inputs: Vec<(&[char], Vec<char>)> = all.iter().map(|v| (&v[..], v.clone())).collect();
+            run_kind_hist::<&[char], Rich<char>>(&c.g, inputs, mode, sched)
+        }
+        "str" => {
+            // byte offsets differ from token indices: probes are not used in histories, LOCS stays empty
+            if all.iter().any(|v| v.iter().any(|t| !t.is_ascii())) {
+                return Err("histories over &str use ASCII tokens".into());
+            }
+            let strs: Vec<String> = all.iter().map(|v| v.iter().collect()).collect();
+            macro_rules! go {
+                ($E:ty) => {{
+                    let inputs: Vec<(&str, Vec<char>)> = strs.iter().zip(all.iter()).map(|(s, v)| (&s[..], v.clone())).collect();
+                    run_kind_hist::<&str, $E>(&c.g, inputs, mode, sched)
+                }};
+            }
+            match ety {
+                "rich" => go!(Rich<char>),
+                "simple" => go!(Simple<char>),
+                "cheap" => go!(Cheap),
+                "empty" => go!(EmptyErr),
+                e => Err(format!("unknown error type {e}")),
+            }
+        }
+        "stream" => {
+            if ety != "rich" {
+                return Err(format!("error type {ety} not instantiated for kind stream"));
+            }
+            let inputs: Vec<_> = all.iter().map(|v| (Stream::from_iter(v.clone().into_iter()).boxed(), v.clone())).collect();
+            run_kind_hist::<_, Rich<char>>(&c.g, inputs, mode, sched)
+        }
+        k => Err(format!("histories are not instantiated for input kind {k}")),
+    }
 }
